@@ -74,7 +74,7 @@ def ckind(k):
     (n, ids), = k.items()
     return "(K%s %s)" % (n, clist([cN(i) for i in ids]))
 
-HEADER = ("From Coq Require Import List String NArith.\nFrom Crux Require Import Cli.Format.\n"
+HEADER = ("From Coq Require Import List String NArith.\nFrom Crux Require Import Cli.Format Cli.Pipeline.\n"
           "Import ListNotations.\nOpen Scope string_scope.\n")
 
 def wire_names(d):
@@ -130,6 +130,8 @@ def items_file(d):
     out.append("Definition f_field : edges := %s." % clist([pair(a, b) for a, b in d["field"]]))
     out.append("Definition f_variant : edges := %s." % clist([pair(a, b) for a, b in d["variant"]]))
     out.append("Definition f_type : edges := %s." % clist([pair(a, b) for a, b in d["local_type_of"]]))
+    out.append("Definition the_dump : dump := mkDump items f_root f_field f_variant f_type.")
+    out.append("Definition crates : list string := %s." % clist([cstr(c) for c in sorted({it["crate_"] for it in d["items"]})]))
     out.append("Definition real_containers : list (string * container) := %s." % ccontainers(d["containers"]))
     out.append("Definition real_registry : registry := %s." % cregistry(d["result"]["ok"]))
     return "\n".join(out) + "\n", clash, todo
